@@ -104,3 +104,36 @@ func VerifRouteTable() {
 	flushAndReload() // the shutdown flush
 	symapi.Reach("end")
 }
+
+// verifSlowProvider yields while it writes: edits can arrive during a flush's I/O.
+type verifSlowProvider struct{ verifRProvider }
+
+func (p *verifSlowProvider) Flush(full, saves, removes []*Route) error {
+	snapshot := append([]*Route(nil), full...)
+	symapi.Yield() // the file is being written
+	p.flushes++
+	p.stored = nil
+	for _, r := range snapshot {
+		c := *r
+		p.stored = append(p.stored, &c)
+	}
+	return nil
+}
+
+// VerifRouteFlushRace (C18): a route is saved while a flush is writing the table. Whatever the
+// interleaving, after the next (shutdown) flush a restarted server loads both routes: an edit
+// that lands during a flush is not forgotten.
+func VerifRouteFlushRace() {
+	prov := &verifSlowProvider{}
+	t := &routetable{m: make(map[string]*Route)}
+	t.Reset(prov)
+	symapi.Assert(t.Save(&Route{Pattern: "/a", URL: "rtsp://h/1"}) == nil, "save-ok")
+	symapi.Go(func() { t.Flush() })
+	symapi.Assert(t.Save(&Route{Pattern: "/b", URL: "rtsp://h/2"}) == nil, "save-ok")
+	symapi.Quiesce()
+	symapi.Assert(t.Flush() == nil, "shutdown-flush-ok")
+	t2 := &routetable{m: make(map[string]*Route)}
+	t2.Reset(&verifRProvider{stored: prov.stored})
+	symapi.Assert(t2.Get("/a") != nil && t2.Get("/b") != nil && len(t2.All()) == 2, "edit-during-a-flush-survives-the-restart")
+	symapi.Reach("end")
+}
